@@ -3,7 +3,9 @@
 Signatures follow sx.main: L<nn>:vc:<clause>|<fixture basename>  and  L<nn>:exception:<Type>@<site>."""
 import json, os, sys
 ROOT = os.path.dirname(os.path.dirname(os.path.abspath(__file__)))
-cal = json.load(open(sys.argv[1]))
+cal = []
+for a in sys.argv[1:]:
+    cal.extend(json.load(open(a)))
 p = os.path.join(ROOT, "known_findings.json")
 d = json.load(open(p))
 F = [f for f in d["findings"] if f.get("origin") != "calibration"]
